@@ -14,7 +14,16 @@ pub struct Shrunk {
 }
 
 fn fails(t: &Trace, rule: R, execs: &mut usize, unknown: &dyn Fn(&Violation) -> bool) -> Option<(usize, String)> {
-    *execs += 1;
+    // the budget is in units of an ordinary execution; a marathon of 2^24 rounds costs hundreds
+    let heavy: u64 = t
+        .events
+        .iter()
+        .map(|e| match e {
+            Ev::Bulk { n, cycle } => *n as u64 * cycle.len().max(1) as u64,
+            _ => 0,
+        })
+        .sum();
+    *execs += 1 + (heavy / 100_000) as usize;
     let r = Exec::run(t);
     r.violations.iter().find(|v| v.rule == rule && unknown(v)).map(|v| (v.idx, v.detail.clone()))
 }
@@ -63,6 +72,13 @@ pub fn shrink(orig: &Trace, rule: R, budget: usize, unknown: &dyn Fn(&Violation)
                 break;
             }
             chunk /= 2;
+        }
+        if cur.env_mode != 0 && execs < budget {
+            let mut cand = cur.clone();
+            cand.env_mode = 0;
+            if try_accept(cand, &mut cur, &mut idx, &mut detail, &mut execs) {
+                progress = true;
+            }
         }
         if cur.ctor_default && execs < budget {
             let mut cand = cur.clone();
@@ -282,6 +298,20 @@ fn simpler(e: &Ev, timeout: u128) -> Vec<Ev> {
             }
             if *k > 1 {
                 v.push(Ev::Repeat { k: *k - 1, n: *n });
+            }
+        }
+        Ev::Bulk { n, cycle } => {
+            for t in [0u32, 1, 254, 255, 256, 65535, 65536, 1 << 20, (1 << 24) - 1, 1 << 24, n / 2, n.saturating_sub(1)] {
+                if t < *n {
+                    v.push(Ev::Bulk { n: t, cycle: cycle.clone() });
+                }
+            }
+            if cycle.len() > 1 {
+                for i in 0..cycle.len() {
+                    let mut c = cycle.clone();
+                    c.remove(i);
+                    v.push(Ev::Bulk { n: *n, cycle: c });
+                }
             }
         }
         Ev::Hop { n } => {
